@@ -1,59 +1,80 @@
 (* C09 — Recovery after a crash at any point is possible and atomic.
    Statements are about Model/CrashSM.v: the directory after any prefix ([cut]) of the primitive
    effects of an operation started from a reachable state at rest, and what InnerLocustDB::new
-   ([recover_c]) makes of it.  [good_recovery r before after]: the recovery returned a database
-   whose content is [before] or [after] for every table at once, or stopped at a catalogue-loading
-   site (excluded for well-formed histories by C13).  Process death only: effects reach the disk in
-   program order. *)
+   ([recover_c]) makes of it.  [recovers r f]: the recovery returned a database whose content is
+   [f], for every table at once.  Process death only: effects reach the disk in program order.
+
+   The model is that of the code since commit 4e8886f (Storage::recover keeps the files of wal/
+   called <u64>.wal and removes the others).  History: before it, a log temp file left by a crash
+   during persist_wal_segment was loaded like a segment (findings F8, F8b); the theorems then read
+   "recovery fails exactly at cut 1 of an ingestion" (C09_ingest_cuts) and
+     Theorem C09_recoverable_refuted :
+       exists s', step true f8_cfg (init f8_cfg) (OIngest f8_batch 200) = Val s' /\
+         recover_c f8_cfg (cut (at_rest (init f8_cfg)) (ingest_effects 0 200 (last_batch s')) 1) = RFail.
+   The same witness is now [C09_f8_witness_recovers] below. *)
 From Coq Require Import NArith ZArith List Bool Lia.
 From LV Require Import Model.TableSM Model.Catalogue Model.WalSM Model.CrashSM
-     Proofs.TableSM Proofs.WalSMBase Proofs.WalSM Proofs.WalSMLog
-     Proofs.CrashSM Proofs.CrashSMCuts Proofs.CrashSMFlush.
+     Proofs.TableSM Proofs.WalSMBase Proofs.WalSM Proofs.WalSMLog Proofs.CatalogueMain
+     Proofs.CrashSM Proofs.CrashSMCuts Proofs.CrashSMFlush Proofs.CrashSMTotal.
 Import ListNotations.
 Open Scope N_scope.
 
-(* Ingestion.  Of the cuts of persist_wal_segment (0: nothing yet, 1: temp file created or partly
-   written, 2: temp file completely written, >= 3: renamed) exactly cut 1 makes recovery fail
-   (finding F8: LocustDB::new panics - before commit b430922 it hung - on the unreadable temp file); from every other cut recovery gives the acknowledged requests, or those plus the
-   request in flight - whole, across all the tables it touches, catalogue rows included, because
-   they travel in the same segment. *)
+(* Ingestion.  The cuts of persist_wal_segment are 0: nothing yet, 1: temp file created or partly
+   written, 2: temp file completely written, >= 3: renamed.  Up to the rename recovery gives the
+   acknowledged requests (the temp file is not read), from the rename on those plus the request in
+   flight - whole, across all the tables it touches, catalogue rows included, because they travel
+   in the same segment.  No cut makes recovery fail. *)
 Theorem C09_ingest_cuts :
   forall (c : cfg) (ops : list op) (b : batch) (bytes : N) (s s' : db) (k : nat),
+    Forall wf_op ops -> wf_op (OIngest b bytes) ->
     run true c ops (init c) = Val s ->
     step true c s (OIngest b bytes) = Val s' ->
-    match recover_c c (cut (at_rest s) (ingest_effects (next_wal s) bytes (last_batch s')) k) with
-    | RFail => k = 1%nat
-    | ROut r => k <> 1%nat /\ good_recovery r (content s) (content s')
-    end.
+    recovers (recover_c c (cut (at_rest s) (ingest_effects (next_wal s) bytes (last_batch s')) k))
+             (if (k <? 3)%nat then content s else content s').
 Proof.
-  intros c ops b bytes s s' k H F. apply (ingest_cuts c b bytes s s' k); auto.
-  eapply reachable_inv; eauto.
+  intros c ops b bytes s s' k W Wb H F. apply (ingest_cuts_total c b bytes s s' k); auto.
+  eapply reachable_reach; eauto.
 Qed.
-
-(* The statement "from every cut recovery returns" is refuted by the cut "temp file of a segment
-   created, not yet renamed" of the very first ingestion (F8). *)
-Definition f8_cfg : cfg :=
-  {| c_factor := 4; c_max_wal_files := 1000; c_max_wal_bytes := 67108864; c_seed := s_column_names |}.
-Definition f8_batch : batch :=
-  [{| tb_name := [116]; tb_cols := [[105; 100]]; tb_rows := [[([105; 100], CInt 0)]] |}].
-
-Theorem C09_recoverable_refuted :
-  exists s', step true f8_cfg (init f8_cfg) (OIngest f8_batch 200) = Val s' /\
-    recover_c f8_cfg (cut (at_rest (init f8_cfg)) (ingest_effects 0 200 (last_batch s')) 1) = RFail.
-Proof. eexists. split; vm_compute; reflexivity. Qed.
 
 (* Flush - batching, partition files, compaction, catalogue replacement, removal of merged-away
    partition files and of log segments, for every factor and size oracle: from every prefix of its
    effects recovery returns the acknowledged content (a flush has no request in flight). *)
 Theorem C09_flush_cuts :
   forall (c : cfg) (ops : list op) (o : oracle) (s : db) (l1 : list (name * tstate)) (k : nat),
+    Forall wf_op ops ->
     run true c ops (init c) = Val s ->
     flush_mid true c o s = Val l1 ->
-    match recover_c c (cut (at_rest s) (flush_effects s l1) k) with
-    | RFail => False
-    | ROut r => good_recovery r (content s) (content s)
-    end.
-Proof. intros c ops o s l1 k H F. eapply flush_cuts; eauto. eapply reachable_inv; eauto. Qed.
+    recovers (recover_c c (cut (at_rest s) (flush_effects s l1) k)) (content s).
+Proof. intros c ops o s l1 k W H F. eapply flush_cuts_total; eauto. eapply reachable_reach; eauto. Qed.
+
+(* From every cut of every operation that writes, recovery returns a database. *)
+Theorem C09_recoverable :
+  forall (c : cfg) (ops : list op) (s : db), Forall wf_op ops -> run true c ops (init c) = Val s ->
+    (forall b bytes s' k, wf_op (OIngest b bytes) -> step true c s (OIngest b bytes) = Val s' ->
+       exists s0, recover_c c (cut (at_rest s) (ingest_effects (next_wal s) bytes (last_batch s')) k) = Val s0) /\
+    (forall o l1 k, flush_mid true c o s = Val l1 ->
+       exists s0, recover_c c (cut (at_rest s) (flush_effects s l1) k) = Val s0).
+Proof.
+  intros c ops s W H. split.
+  - intros b bytes s' k Wb F. destruct (C09_ingest_cuts c ops b bytes s s' k W Wb H F) as [s0 [E _]]. eauto.
+  - intros o l1 k F. destruct (C09_flush_cuts c ops o s l1 k W H F) as [s0 [E _]]. eauto.
+Qed.
+
+(* Without the premise that the requests are well formed (table names outside the catalogue
+   namespace, see C13) the same holds up to the catalogue look-ups of the replay: recovery returns
+   that content or stops at one of them ([good_recovery]). *)
+Theorem C09_cuts_any_history :
+  forall (c : cfg) (ops : list op) (s : db), run true c ops (init c) = Val s ->
+    (forall b bytes s' k, step true c s (OIngest b bytes) = Val s' ->
+       good_recovery (recover_c c (cut (at_rest s) (ingest_effects (next_wal s) bytes (last_batch s')) k))
+                     (if (k <? 3)%nat then content s else content s')) /\
+    (forall o l1 k, flush_mid true c o s = Val l1 ->
+       good_recovery (recover_c c (cut (at_rest s) (flush_effects s l1) k)) (content s)).
+Proof.
+  intros c ops s H. pose proof (reachable_inv _ _ _ H) as I. split.
+  - intros b bytes s' k F. apply (ingest_cuts c b bytes s s' k); auto.
+  - intros o l1 k F. eapply flush_cuts; eauto.
+Qed.
 
 (* The ordering the proof rests on: partition files, then the catalogue file, then removals. *)
 Theorem C09_order :
@@ -72,39 +93,58 @@ Proof.
     + unfold wal_removes. induction (seq_ids (earliest s) (N.to_nat (next_wal s - earliest s))); cbn; auto.
 Qed.
 
-(* Crashing during or right after a recovery changes nothing: the recovery of a state at rest has
-   no effect on the directory at all (nothing lies below the cursor), any prefix of it recovers to
-   the same content, and a second restart of the restarted state gives the same content again. *)
+(* Recovery's own effects - the removal of a leftover log temp file, then of the segments below
+   the cursor - and a crash during them (second level):
+   - a state at rest gives recovery nothing to remove;
+   - from a cut of an ingestion it removes at most the temp file, and what a later recovery returns
+     does not depend on whether that happened;
+   - from a cut of a flush it removes segments below the cursor, and from every prefix of those
+     removals recovery returns the acknowledged content;
+   - a second restart of a restarted state gives the same content, log and cursor again. *)
 Theorem C09_idempotent :
-  forall (c : cfg) (ops : list op) (s : db) (k : nat),
-    run true c ops (init c) = Val s ->
-    recover_effects s = [] /\
-    match recover_c c (cut (at_rest s) (recover_effects s) k) with
-    | RFail => False
-    | ROut r => good_recovery r (content s) (content s)
-    end /\
-    forall s1 s2, recover c s = Val s1 -> recover c s1 = Val s2 ->
-                  (forall n, content s2 n = content s n) /\ d_wal s2 = d_wal s /\ d_cursor s2 = d_cursor s.
+  forall (c : cfg) (ops : list op) (s : db),
+    Forall wf_op ops -> run true c ops (init c) = Val s ->
+    recover_effects_c (at_rest s) = [] /\
+    (forall b bytes s' k j, step true c s (OIngest b bytes) = Val s' ->
+       let d := cut (at_rest s) (ingest_effects (next_wal s) bytes (last_batch s')) k in
+       recover_c c (cut d (recover_effects_c d) j) = recover_c c d) /\
+    (forall o l1 k j, flush_mid true c o s = Val l1 ->
+       let d := cut (at_rest s) (flush_effects s l1) k in
+       recovers (recover_c c (cut d (recover_effects_c d) j)) (content s)) /\
+    (forall s1 s2, recover c s = Val s1 -> recover c s1 = Val s2 ->
+                   (forall n, content s2 n = content s n) /\ d_wal s2 = d_wal s /\ d_cursor s2 = d_cursor s).
 Proof.
-  intros c ops s k H. pose proof (reachable_inv _ _ _ H) as I. split; [|split].
-  - pose proof (recovery_cuts c s 0 I) as _. unfold recover_effects. rewrite filter_none; [reflexivity|].
-    intros x HI. apply N.ltb_ge.
-    assert (Ecur : match d_cursor s with Some k => k | None => 0 end = earliest s).
-    { pose proof (i_cursor _ I) as Hc. destruct (d_cursor s); congruence. }
-    rewrite Ecur. eapply seqN_ge. rewrite <- (i_ids _ I). apply in_map. exact HI.
-  - apply recovery_cuts. exact I.
+  intros c ops s W H. pose proof (reachable_inv _ _ _ H) as I. split; [|split; [|split]].
+  - unfold recover_effects_c. cbn [at_rest cd_tmp cd_db app]. apply recover_effects_rest. exact I.
+  - intros b bytes s' k j F. apply (recovery_cuts_ingest c s _ k j I).
+  - intros o l1 k j F. eapply flush_recovery_cuts_total; eauto. eapply reachable_reach; eauto.
   - intros s1 s2 R1 R2. destruct (recover_spec _ _ _ I R1) as [I1 [C1 [_ [W1 [K1 _]]]]].
     destruct (recover_spec _ _ _ I1 R2) as [_ [C2 [_ [W2 [K2 _]]]]].
     split; [intro n; rewrite C2; apply C1|]. split; congruence.
 Qed.
 
-(* A crash between the catalogue replacement and the removals leaves segments below the cursor and
-   files of merged-away partitions behind; recovery removes the former (its own effects) and from
-   every prefix of those removals the content is the same: instance of C09_flush_cuts, since the
-   removals of the flush and of the recovery are the same effects.  Non-vacuity: a flush with
-   compaction whose every cut (12 of them) recovers to the acknowledged rows. *)
+(* The witness of the retired finding F8: the first ingestion cut while its temp file is incomplete.
+   Recovery returns the empty database and has the temp file to remove. *)
+Definition f8_cfg : cfg :=
+  {| c_factor := 4; c_max_wal_files := 1000; c_max_wal_bytes := 67108864 |}.
+Definition f8_batch : batch :=
+  [{| tb_name := [116]; tb_cols := [[105; 100]]; tb_rows := [[([105; 100], CInt 0)]] |}].
+
+Example C09_f8_witness_recovers :
+  exists s' s0,
+    step true f8_cfg (init f8_cfg) (OIngest f8_batch 200) = Val s' /\
+    let d := cut (at_rest (init f8_cfg)) (ingest_effects 0 200 (last_batch s')) 1 in
+    cd_tmp d = Some TmpPartial /\ recover_c f8_cfg d = Val s0 /\ content s0 [116] = [] /\
+    recover_effects_c d = [EWalTmpRemove].
+Proof.
+  eexists. eexists. split; [vm_compute; reflexivity|]. split; [vm_compute; reflexivity|].
+  split; [vm_compute; reflexivity|]. split; vm_compute; reflexivity.
+Qed.
+
+(* Non-vacuity: a flush with compaction whose every cut (12 of them) recovers to the acknowledged
+   rows. *)
 Definition ex_cfg : cfg :=
-  {| c_factor := 0; c_max_wal_files := 1000; c_max_wal_bytes := 67108864; c_seed := s_column_names |}.
+  {| c_factor := 0; c_max_wal_files := 1000; c_max_wal_bytes := 67108864 |}.
 Definition ex_t : name := [116].
 Definition ex_id : name := [105; 100].
 Definition ex_b (k : Z) : batch :=
@@ -114,7 +154,7 @@ Definition ex_ops : list op := [OIngest (ex_b 0) 200; OFlush false ex_o; OIngest
 
 Definition content_after_cut (s : db) (l1 : list (name * tstate)) (k : nat) : option (list row) :=
   match recover_c ex_cfg (cut (at_rest s) (flush_effects s l1) k) with
-  | ROut (Val s') => Some (content s' ex_t)
+  | Val s' => Some (content s' ex_t)
   | _ => None
   end.
 
